@@ -134,10 +134,14 @@ def declineFrom (r : Record) (addrs : List Addr) : Option Record :=
 
 end Record
 
-/-- insert into a sorted duplicate-free suffix list -/
-def insertSfx (x : Suffix) : List Suffix → List Suffix
+/-- insert before the first greater element -/
+def insertSorted (x : Suffix) : List Suffix → List Suffix
   | [] => [x]
-  | y :: ys => if x = y then y :: ys else if sfxLt x y then x :: y :: ys else y :: insertSfx x ys
+  | y :: ys => if sfxLt x y then x :: y :: ys else y :: insertSorted x ys
+
+/-- insert into a sorted duplicate-free suffix list -/
+def insertSfx (x : Suffix) (l : List Suffix) : List Suffix :=
+  if l.contains x then l else insertSorted x l
 
 /-- quarantine.go:268 `Simplify(toRemove...)`: sorted, no duplicates, none of `toRemove`. -/
 def simplify (toRemove : List Suffix) (l : List Suffix) : List Suffix :=
@@ -212,18 +216,22 @@ def getQuarantineRecord (s : State) (to : Addr) (froms : List Addr) : Option Rec
 def getQuarantineRecords (s : State) (to : Addr) (froms : List Addr) : List Record :=
   (getQuarantineRecordSuffixes s.index to froms).filterMap fun sfx => kvGet s.recs (to, sfx)
 
+/-- keeper.go:253-266: the existing record with the coins added, or a new record whose senders
+are split by the current auto-accept settings. -/
+def toppedUpOrNew (s : State) (coins : Coins) (to : Addr) (froms : List Addr) : Record :=
+  match getQuarantineRecord s to froms with
+  | some r => r.addCoins coins
+  | none =>
+    { unacc := froms.filter (fun f => !isAutoAccept s to [f]),
+      acc := froms.filter (fun f => isAutoAccept s to [f]),
+      coins := coins, declined := false }
+
 /-- keeper.go:252 `AddQuarantinedCoins`. -/
 def addQuarantinedCoins (s : State) (coins : Coins) (to : Addr) (froms : List Addr) : Except Err State :=
-  let qr : Record := match getQuarantineRecord s to froms with
-    | some r => r.addCoins coins
-    | none =>
-      { unacc := froms.filter (fun f => !isAutoAccept s to [f]),
-        acc := froms.filter (fun f => isAutoAccept s to [f]),
-        coins := coins, declined := false }
-  if qr.isFullyAccepted then .error .state
+  if (toppedUpOrNew s coins to froms).isFullyAccepted then .error .state
   else
-    let qr := { qr with declined := isAutoDecline s to froms }
-    .ok (setQuarantineRecord { s with qin := Coins.add s.qin coins } to qr)
+    .ok (setQuarantineRecord { s with qin := Coins.add s.qin coins } to
+      { toppedUpOrNew s coins to froms with declined := isAutoDecline s to froms })
 
 /-! ### the bank (forked SDK x/bank/keeper/send.go) -/
 
